@@ -152,7 +152,10 @@ func genC12(t *rapid.T) C12Case {
 			}
 		} else {
 			c.Pause = rapid.IntRange(0, n-1).Draw(t, "pause")
-			c.Site = rapid.SampledFrom(c12Sites[c.Steps[c.Pause].Op]).Draw(t, "site")
+			c.Site = "none" // steps that pass no hook site (a refused Verify, an empty call)
+			if sites := c12Sites[c.Steps[c.Pause].Op]; len(sites) > 0 {
+				c.Site = rapid.SampledFrom(sites).Draw(t, "site")
+			}
 			c.Occ = rapid.IntRange(0, 3).Draw(t, "occ")
 		}
 	} else {
